@@ -238,9 +238,7 @@ def tasks():
         for kind, calls, child in spec["children"]:
             t = {"node": node, "probe_ab": probe_ab, "probe_c": probe_c, "reader": reader, "wrap": wrap, "mid": mid, "midr": midr,
                  "mid_body": mid_body}[kind]
-            for ctx, kw in calls:
-                t = t.update_context(ctx, **kw)
-            c.append(t(child))
+            c.append(apply_chain(t, calls, child))
         return {"id": spec["id"], "q": q, "c": c}
 
     _T.update(node=node, probe_ab=probe_ab, probe_c=probe_c, reader=reader, wrap=wrap, mid=mid, midr=midr, mid_body=mid_body,
@@ -260,13 +258,87 @@ def targeted_override(rng):
     return rng.choice([{"a": {"b": v}}, {"c": v}, {"b": {"c": v}}, {"d": v}, {"a": v}, {"a": {"c": v}}, {"a": {"b": v}, "c": rng.randrange(3)}])
 
 
+def apply_chain(t, steps, arg):
+    """The call expression `t.<steps…>(arg)`.  A step is (ctx, kwargs) or ["uc", ctx, kwargs] = .update_context(ctx, **kwargs);
+    ["partial", bind] = .partial(arg) if bind and the argument is not bound yet, else .partial(); ["options", k] = .options(verif_opt=k)"""
+    bound = False
+    for st in steps:
+        if st[0] == "partial":
+            if st[1] and not bound:
+                t, bound = t.partial(arg), True
+            else:
+                t = t.partial()
+        elif st[0] == "options":
+            t = t.options(verif_opt=st[1])
+        else:
+            t = t.update_context(st[-2], **st[-1])
+    return (t() if bound else t(arg)), t
+
+
 def apply_calls(t, calls):
-    for ctx, kw in calls:
-        t = t.update_context(ctx, **kw)
-    return t
+    """the task object after the chain (argument None)"""
+    return apply_chain(t, calls, None)[1]
+
+
+def uc_steps(steps):
+    return [(st[-2], st[-1]) for st in steps if st[0] not in ("partial", "options")]
+
+
+def want_override(steps):
+    """the statement: the call's override is the deep merge of ALL update_context overrides of the chain, in order"""
+    ov = {}
+    for cx, kw in uc_steps(steps):
+        ov = spec_merge(spec_merge(ov, cx), kw)
+    return ov
+
+
+def ambiguous(steps):
+    """a step with previous override, ctx and kwargs all present is the 3-ary merge of the remark nary_note"""
+    prev = False
+    for cx, kw in uc_steps(steps):
+        if prev and cx and kw:
+            return True
+        prev = prev or bool(cx) or bool(kw)
+    return False
+
+
+def partial_between(steps):
+    """a .partial() after one update_context and before another"""
+    seen_uc, seen_p = False, False
+    for st in steps:
+        if st[0] == "partial":
+            seen_p = seen_p or seen_uc
+        elif st[0] != "options":
+            if seen_p and (st[-2] or st[-1]):
+                return True
+            seen_uc = seen_uc or bool(st[-2]) or bool(st[-1])
+    return False
+
+
+def s_chain(steps):
+    return "chain" + "".join(" (P %s %s)" % (to_sx(cx), to_sx(kw)) for cx, kw in uc_steps(steps))
+
+
+def call_override(ctx, reqs, checks, task_obj, steps):
+    """The override the call carries: compared with the model's overrideOfChain and with the statement; returns what the job-tree
+    oracle uses (the statement's override; the stored one only inside the nary_note remark)."""
+    try:
+        stored = stored_override(apply_calls(task_obj, steps))
+        impl = to_sx(stored)
+    except Exception as e:  # noqa: BLE001
+        stored, impl = None, "!" + type(e).__name__
+    want = want_override(steps)
+    amb = ambiguous(steps)
+    if steps:
+        reqs.append(s_chain(steps))
+        checks.append(("chain", dict(steps=steps, impl=impl, amb=amb, want=canon(want), stored=None if stored is None else canon(stored))))
+    return stored if (amb and stored is not None) else want
 
 
 def stored_override(t):
+    from redun.task import PartialTask
+    while isinstance(t, PartialTask):
+        t = t.task
     return t._task_options_override.get("_context_override", {})
 
 
@@ -291,6 +363,10 @@ def gen_calls(rng):
         if rng.random() < 0.25:
             kw = {k: v for k, v in gen_ctx(rng, 2).items()}
         calls.append((ctx, kw))
+    if rng.random() < 0.45:     # .partial(..) / .options(..) anywhere in the chain: before, between and after the update_context calls
+        for _ in range(rng.choice([1, 1, 2, 3])):
+            st = ["partial", rng.random() < 0.5] if rng.random() < 0.7 else ["options", rng.randrange(3)]
+            calls.insert(rng.randrange(len(calls) + 1), st)
     return calls
 
 
@@ -303,9 +379,7 @@ def gen_tree(rng, depth, seed, ctx_hint, shared=False):
     if depth > 0:
         for _ in range(rng.choice([0, 1, 1, 2, 3]) if depth < 3 else rng.choice([1, 2])):
             calls = gen_calls(rng)
-            hint = ctx_hint
-            for ctx, kw in calls:
-                hint = spec_merge(spec_merge(hint, ctx), kw)
+            hint = spec_merge(ctx_hint, want_override(calls))
             if rng.random() < 0.2:
                 kind = rng.choice(["probe_ab", "probe_c"])
                 children.append([kind, calls, Ids.next(seed)])
@@ -318,7 +392,9 @@ def gen_tree(rng, depth, seed, ctx_hint, shared=False):
             kinds.append(rng.choice(SHARED_KINDS))
         for kind in kinds:
             r = rng.random()
-            calls = [] if r < 0.2 else ([(targeted_override(rng), {})] if r < 0.8 else gen_calls(rng))
+            calls = [] if r < 0.2 else ([(targeted_override(rng), {})] if r < 0.6 else
+                                        ([(targeted_override(rng), {}), ["partial", rng.random() < 0.5], (targeted_override(rng), {})]
+                                         if r < 0.8 else gen_calls(rng)))
             group.append([kind, calls, Ids.next(seed) if kind in ("mid", "midr", "mid_body") else "W"])
         rng.shuffle(group)
         children.extend(group)
@@ -407,19 +483,24 @@ def run(ctx):
 
     # ---------------- 3. Task.update_context chains
     T = tasks()
-    upd = []
     upd_corpus = [
         [({"a": 1}, {})], [({"a": {"b": 1}}, {}), ({"a": {"c": 2}}, {})], [({"a": {"b": 1}}, {"a": {"c": 2}})], [({}, {"a": 1})],
         [({"k": 5}, {}), ({"k": {"x": 1}}, {"k": {"y": 2}})], [({"a": {"b": 1}}, {}), ({"a": 5}, {}), ({"a": {"c": 1}}, {})],
+        # regression (known_findings: C26-partial-task-update-context-drops-earlier-overrides): update_context after .partial()
+        [({}, {"p": 1}), ["partial", False], ({}, {"q": 2})],
+        [({"a": {"b": 1}}, {}), ["partial", True], ({"a": {"c": 2}}, {})],
+        [({"a": {"b": 1}}, {}), ["partial", False], ["partial", False], ({"a.b": 2}, {}), ["options", 1], ({"a": {"b": {"c": 3}}}, {})],
+        [["partial", True], ({"a": 1}, {}), ["options", 0], ({"b": 2}, {}), ["partial", False]],
+        [({"a": 1}, {}), ["options", 2], ({"b": 2}, {})],
     ]
     for calls in upd_corpus + [gen_calls(rng) for _ in range(ctx.n(300, 4000))]:
         prev = {}
-        for cx, kw in calls:
+        for cx, kw in uc_steps(calls):
             reqs.append("update %s %s %s" % (to_sx(prev), to_sx(cx), to_sx(kw)))
             checks.append(("update", (prev, cx, kw)))
             prev = stored_override(T["node"].update_context(cx, **kw)) if not prev else \
                 stored_override(T["node"].options(_context_override=prev).update_context(cx, **kw))
-        upd.append(calls)
+        call_override(ctx, reqs, checks, T["node"], calls)
 
     # ---------------- 4. job trees on the real scheduler
     wf_results = run_workflows(ctx, reqs, checks)
@@ -485,6 +566,21 @@ def run(ctx):
                     ctx.violation("C26-update-context-wrong", "update_context does not deep-merge the new context into the previous override",
                                   case={"prev": prev, "ctx": cx, "kwargs": kw}, expected=canon(want),
                                   actual=impl if impl.startswith("!") else canon(impl_v))
+        elif kind == "chain":
+            steps, impl = data["steps"], data["impl"]
+            ctx.case(key=("c", canon(steps)) if len(steps) > 1 else None, stream="call-chain", chain_updates=min(len(uc_steps(steps)), 4),
+                     chain_partial=sum(1 for st in steps if st[0] == "partial"), chain_options=sum(1 for st in steps if st[0] == "options"),
+                     partial_between_updates=partial_between(steps),
+                     sample=take_sample(ctx, "chain", 1, partial_between(steps) and nontrivial(*[c for c, _ in uc_steps(steps)]),
+                                        {"call_chain": canon(steps)[:300], "override": data["stored"]}))
+            if mo != impl:
+                ctx.mismatch("the _context_override carried by a call after a chain of update_context/partial/options differs from model "
+                             "overrideOfChain", case={"chain": steps}, model=mo, impl=impl)
+            if not data["amb"] and data["stored"] != data["want"]:
+                sig = "C26-partial-task-update-context-drops-earlier-overrides" if partial_between(steps) else "C26-update-context-wrong"
+                ctx.violation(sig, "the override a call carries is not the deep merge of all update_context overrides of its chain"
+                              + (" (an update_context after .partial() drops the earlier ones)" if partial_between(steps) else ""),
+                              case={"chain": steps}, expected=data["want"], actual=data["stored"] or impl)
         elif kind == "jobget":
             info = data
             impl = info["impl"]
@@ -546,22 +642,20 @@ def run_workflows(ctx, reqs, checks):
                     run_ctx = {}
                 exec_hint = spec_merge(config_ctx, run_ctx)
                 root_calls = gen_calls(rng) if rng.random() < 0.4 else []
-                hint = exec_hint
-                for cx, kw in root_calls:
-                    hint = spec_merge(spec_merge(hint, cx), kw)
+                hint = spec_merge(exec_hint, want_override(root_calls))
                 # same-task-same-arguments jobs only under a non-empty execution context (every job context is then non-empty:
                 # an empty-context job served from a context-bearing one is the listed finding of C05, not this property)
                 shared = bool(exec_hint) and rng.random() < 0.7
                 spec = gen_tree(rng, rng.choice([1, 2, 2, 3, 3]), ctx.seed, hint, shared)
-                expr = apply_calls(T["node"], root_calls)(spec)
+                expr = apply_chain(T["node"], root_calls, spec)[0]
                 try:
                     result = sched.run(expr, context=run_ctx) if (run_ctx or rng.random() < 0.5) else sched.run(expr)
                 except Exception as e:  # noqa: BLE001
                     ctx.violation("C26-workflow-raises", "a context workflow raised", case={"config": config_ctx, "run": run_ctx, "spec": spec},
                                   expected="a result", actual=repr(e)[:300], kind="program")
                     continue
-                walk(ctx, reqs, checks, config_ctx, run_ctx, spec, result, [stored_override(apply_calls(T["node"], root_calls))],
-                     spec_merge(exec_hint, stored_override(apply_calls(T["node"], root_calls))), 0)
+                root_ov = call_override(ctx, reqs, checks, T["node"], root_calls)
+                walk(ctx, reqs, checks, config_ctx, run_ctx, spec, result, [root_ov], spec_merge(exec_hint, root_ov), 0)
             check_context_hashes(ctx, seen_jobs, config_ctx)
     finally:
         log.setLevel(old_level)
@@ -588,7 +682,7 @@ def walk(ctx, reqs, checks, config_ctx, run_ctx, spec, result, chain, want_ctx, 
     for (path, default), got in zip(spec["queries"], result["q"]):
         emit(path, default, got, "body", spec["id"], chain, want_ctx, depth)
     for (kind, calls, child), cres in zip(spec["children"], result["c"]):
-        ov = stored_override(apply_calls(T[kind], calls))
+        ov = call_override(ctx, reqs, checks, T[kind], calls)
         child_ctx = spec_merge(want_ctx, ov)
         if kind == "node":
             walk(ctx, reqs, checks, config_ctx, run_ctx, child, cres, chain + [ov], child_ctx, depth + 1)
